@@ -415,6 +415,13 @@ def corpus():
                  ["q", "sig", None, ["vec", "bv", "up", 3]], ["q", "sig", None, U3]])
     seqs.append([["leaf", "bool"], ["leaf", "int"], ["q", "sig", None, ["leaf", "bool"]],
                  ["q", "var", None, ["leaf", "int"]], ["q", "port", "in", ["leaf", "bit"]]])
+    # both spellings of the wrapped bool / int types (the worker spells items at odd positions with the Python builtins):
+    # equal parameters, hence the identical class, in either order of first use; ports of bool derive from signals of bool
+    QB, QI = ["q", "sig", None, ["leaf", "bool"]], ["q", "sig", None, ["leaf", "int"]]
+    PB, PI = ["q", "port", "in", ["leaf", "bool"]], ["q", "port", "out", ["leaf", "int"]]
+    seqs.append([QB, QB, QI, QI, PB, PB, ["q", "var", None, ["leaf", "bool"]], ["q", "var", None, ["leaf", "bool"]]])
+    seqs.append([["leaf", "bit"], QB, QB, PB, QI, PI, PI, ["q", "tmp", None, ["leaf", "int"]], ["q", "tmp", None, ["leaf", "int"]]])
+    seqs.append([PB, QB, PB, QB, PI, QI])
     out = [{"items": [["t", e] for e in s]} for s in seqs]
     # subscripting an already parametrised class (std.reg does it: underlying[arg.width])
     B3, B4, U8 = ["vec", "bv", "down", 3], ["vec", "bv", "down", 4], ["vec", "u", "down", 8]
